@@ -63,3 +63,19 @@ Example C17_sequential_nonvacuous :
   run_seq (mkIst sec None (Some [1%N; 2%N])) [0; 5; sec; sec + 1; 2 * sec]
   = [(ROk, [1%N; 2%N]); (RAlready, []); (ROk, [1%N; 2%N]); (RAlready, []); (ROk, [1%N; 2%N])].
 Proof. vm_compute. reflexivity. Qed.
+
+(* ---- tie to the source: the function bodies below are re-translated from /repo on every run
+   (harness/cmd/gofunc -> theories/Generated/Funcs.v, interpreted by theories/GoIR.v); the statements say that
+   the translated source computes what the model assumes, for ALL inputs. A change of the source that alters
+   the computed function breaks the proof. ---- *)
+From Cache Require Import GoIR TieInvalidate.
+From Cache.Generated Require Import Funcs.
+
+(* Invalidator.Invalidate is the model's [invalidate]; the mutex is taken before, and released (deferred) after,
+   every store and the callback loop; the callbacks run iff the call is accepted *)
+Theorem C17_source_invalidate : forall tc ts s,
+  run_invalidate tc ts s =
+  let '(r, ran, s') := invalidate tc ts s in
+  Some (r, bool_decide (r = ROk), s', true).
+Proof. exact tie_invalidate. Qed.
+Print Assumptions C17_source_invalidate.
